@@ -63,6 +63,7 @@ func guardedByEdge(body *ast.BlockStmt, target ast.Node, pass func(cond ast.Expr
 	if len(g.Blocks) == 0 {
 		return false
 	}
+	tagged := taggedCaseConds(body)
 	// block containing the target (innermost node span)
 	var tb *cfg.Block
 	best := token.Pos(-1)
@@ -89,6 +90,9 @@ func guardedByEdge(body *ast.BlockStmt, target ast.Node, pass func(cond ast.Expr
 		for i, s := range b.Succs {
 			if len(b.Succs) == 2 && len(b.Nodes) > 0 {
 				if cond, ok := b.Nodes[len(b.Nodes)-1].(ast.Expr); ok {
+					if eq, isCase := tagged[cond]; isCase {
+						cond = eq
+					}
 					if pass(cond, i == 0) {
 						continue // pass edge: the guard holds beyond it
 					}
@@ -308,4 +312,26 @@ func mustPass(body *ast.BlockStmt, target ast.Node) bool {
 	}
 	dfs(g.Blocks[0])
 	return !escaped
+}
+
+// taggedCaseConds: go/cfg shows a case expression of a tagged switch as the condition node of its branch ("one half of
+// the tag == expr condition"). This maps each such case expression to the synthesized equality, so that edge predicates
+// written for `if tag == expr` also recognise `switch tag { case expr: }`.
+func taggedCaseConds(body ast.Node) map[ast.Expr]ast.Expr {
+	out := map[ast.Expr]ast.Expr{}
+	ast.Inspect(body, func(n ast.Node) bool {
+		sw, ok := n.(*ast.SwitchStmt)
+		if !ok || sw.Tag == nil {
+			return true
+		}
+		for _, cl := range sw.Body.List {
+			if cc, ok := cl.(*ast.CaseClause); ok {
+				for _, e := range cc.List {
+					out[e] = &ast.BinaryExpr{X: sw.Tag, OpPos: e.Pos(), Op: token.EQL, Y: e}
+				}
+			}
+		}
+		return true
+	})
+	return out
 }
